@@ -201,12 +201,15 @@ def big_family(tier, seed):
     rnd = random.Random(5500 + seed)
     E = []
     R = lambda b: rnd.randrange(1 << b)
-    widths = [8, 96, 100, 192] if tier == "quick" else [1, 8, 95, 96, 97, 100, 191, 192, 200, 288, 300, 384]
+    widths = [8, 100, 192, 384] if tier == "quick" else [1, 8, 95, 96, 97, 100, 191, 192, 200, 288, 300, 384]
     for b in widths:
         E.append(bent("assign", S_assign, [R(b)], {"bx": b}, alt=[[0], [(1 << b) - 1]]))
-    for c in [0, 1, (1 << 96) - 1, 1 << 96, R(200)]:
+    # BigUint of 0 bits ("an integer in [0, 2^0)"): the only value is 0
+    E.append(bent("assign", S_assign, [0], {"bx": 0}))
+    E[-1]["maypanic"] = True
+    for c in ([0, 1 << 96, R(200)] if tier == "quick" else [0, 1, (1 << 96) - 1, 1 << 96, R(200), R(384)]):
         E.append(bent("assign_fixed", S_fixed(c), [], {"c": c}))
-    pairs = [(8, 8), (96, 96), (100, 128), (192, 96), (288, 200)] if tier == "quick" else \
+    pairs = [(8, 8), (96, 96), (100, 128), (192, 96), (288, 200), (384, 300)] if tier == "quick" else \
         [(1, 1), (8, 8), (96, 96), (97, 96), (100, 128), (192, 96), (192, 192), (288, 200), (384, 384), (8, 384)]
     for bx, by in pairs:
         mx, my = (1 << bx) - 1, (1 << by) - 1
@@ -216,7 +219,7 @@ def big_family(tier, seed):
             x, y = (y, x) if y <= mx else (mx, y & mx)
         E.append(bent("sub", S_arith("sub"), [x, y], {"bx": bx, "by": by}, alt=[[0, 0], [mx, min(mx, my)], [mx, 0], [min(mx, my), min(mx, my)]]))
         E.append(bent("mul", S_arith("mul"), [R(bx), R(by)], {"bx": bx, "by": by}, alt=[[0, 0], [mx, my], [mx, 0], [1, my]], k=12, monomial=True))
-    cmp_pairs = [(8, 8), (96, 96), (100, 192), (288, 200)] if tier == "quick" else \
+    cmp_pairs = [(8, 8), (96, 96), (100, 192), (288, 200), (384, 384)] if tier == "quick" else \
         [(1, 1), (8, 8), (96, 96), (97, 96), (100, 192), (192, 192), (288, 200), (384, 384), (8, 384)]
     for bx, by in cmp_pairs:
         mx, my = (1 << bx) - 1, (1 << by) - 1
@@ -227,11 +230,13 @@ def big_family(tier, seed):
             edge += [[x, x ^ (1 << 96)], [x ^ 1, x], [(1 << 96) - 1, 1 << 96], [1 << 96, (1 << 96) - 1]]
         E.append(bent("lower_than", S_lower_than, [R(bx), R(by)], {"bx": bx, "by": by}, alt=edge))
         E.append(bent("is_equal", S_is_equal(), [x, x], {"bx": bx, "by": by}, alt=edge))
+        if tier == "quick" and (bx, by) in [(8, 8), (384, 384)]:
+            continue        # the remaining operations of this group are limb-wise: three shapes suffice at the quick tier
         E.append(bent("is_not_equal", S_is_equal(neg=True), [x, x], {"bx": bx, "by": by}, alt=edge[:4]))
         E.append(bent("assert_equal", S_assert("assert_equal"), [x, x], {"bx": bx, "by": by}, alt=[[0, 0], [mn, mn]]))
         E.append(bent("assert_not_equal", S_assert("assert_not_equal"), [x, (x + 1) & my], {"bx": bx, "by": by}, alt=[[0, my], [mx, 0]] + ([[x, x ^ (1 << 96)]] if min(bx, by) > 96 else [])))
         E.append(bent("select", S_select, [1, R(bx), R(by)], {"bx": bx, "by": by}, alt=[[0, R(bx), R(by)], [1, mx, my], [0, mx, my]]))
-    for b in ([8, 96, 200] if tier == "quick" else [1, 8, 96, 97, 200, 288, 384]):
+    for b in ([8, 200] if tier == "quick" else [1, 8, 96, 97, 200, 288, 384]):
         mx = (1 << b) - 1
         c = R(b)
         consts = [0, c] + ([1 << 96] if b > 96 else [])
@@ -252,23 +257,30 @@ def big_family(tier, seed):
         E.append(bent("div_rem", S_div_rem, [R(bx), R(by) | 1], {"bx": bx, "by": by},
                       alt=[[0, 1], [mx, my], [mx, 1], [my & mx, my], [(my - 1) & mx, my], [0, my]], k=12, monomial=True))
     for n in [0, 1, 2, 3, 4]:
-        for bx, by in [(8, 8), (96, 96), (192, 192), (200, 100)]:
+        # one squaring (n = 2), squaring + multiplication (n = 3), two squarings (n = 4); two-limb operands are
+        # decided at the thorough tier only (measured 35-55 s for n = 2, see notes/biguint.md)
+        shapes = [(8, 8), (96, 96)] if tier == "quick" else [(8, 8), (96, 96), (100, 96), (192, 192), (200, 100)]
+        if tier != "quick" and n >= 3:
+            shapes = [(8, 8), (96, 96), (100, 96)]
+        for bx, by in shapes:
             m = R(by) | (1 << (by - 1)) | 1
             x = R(bx)
             if n == 1:
                 x %= m      # the honest run must satisfy the specification (x^1 mod m = x only for x < m)
             for claim in ["value", "dom"]:
-                E.append(bent("mod_exp", S_mod_exp(n, claim), [x, m], {"bx": bx, "by": by, "n": n, "claim": claim}, k=13, variants=MODEXP_VARIANTS))
-    for b in ([8, 96, 200] if tier == "quick" else [1, 8, 96, 100, 200, 288, 384]):
+                E.append(bent("mod_exp", S_mod_exp(n, claim), [x, m], {"bx": bx, "by": by, "n": n, "claim": claim}, k=12, variants=MODEXP_VARIANTS))
+    for b in ([8, 200, 384] if tier == "quick" else [1, 8, 96, 100, 200, 288, 384]):
         mx = (1 << b) - 1
         E.append(bent("to_le_bits", S_to_bits, [R(b)], {"bx": b}, alt=[[0], [mx]], k=12))
         E.append(bent("to_le_bytes", S_to_bytes, [R(b)], {"bx": b}, alt=[[0], [mx]]))
-    for n in ([1, 8, 96, 100, 200] if tier == "quick" else [1, 8, 95, 96, 97, 100, 192, 200, 300, 384]):
+    for n in ([1, 96, 100, 300] if tier == "quick" else [1, 8, 95, 96, 97, 100, 192, 200, 300, 384]):
         bits = [rnd.randrange(2) for _ in range(n)]
         E.append(bent("from_le_bits", S_from(n, 2), bits, {"n": n}, alt=[[1] * n, [0] * n], k=12))
-    for n in ([1, 12, 13, 30] if tier == "quick" else [1, 2, 11, 12, 13, 24, 25, 30, 48]):
+    for n in ([1, 12, 13, 40] if tier == "quick" else [1, 2, 11, 12, 13, 24, 25, 30, 40, 48]):
         bs = [rnd.randrange(256) for _ in range(n)]
         E.append(bent("from_le_bytes", S_from(n, 256), bs, {"n": n}, alt=[[255] * n, [0] * n]))
+    heavy = lambda en: 0 if en["op"] in ("mod_exp", "div_rem", "lower_than") else 1
+    E.sort(key=heavy)           # stable: the slow obligations start first and overlap with the many light ones
     return E
 
 
@@ -335,10 +347,24 @@ def S_ff_from_bits(n):
     return spec
 
 
+def S_ff_from_bytes(n):
+    def spec(e, I, O):
+        z = O[:int(e.extra["nb_limbs"])]
+        r = e.residue([(256 ** j, b) for j, b in enumerate(I[:n])], 0, C05.M(e))
+        return AND(*[lt(b, 256) for b in I[:n]], eq(C05.res(e, z), r), C05.wellformed(e, z))
+    return spec
+
+
+def S_ff_sgn0(e, I, O):
+    """RFC 9380 sgn0 of a prime-field element: the parity of its canonical representative"""
+    x = C05.split(e, I)[0]
+    return AND(isbit(O[0]), eq(O[0], f"(mod {C05.res(e, x)} 2)"))
+
+
 def ff_family(tier, seed):
     rnd = random.Random(5600 + seed)
     E = []
-    fields = ["k256fp", "k256fq", "blsfp"] if tier == "quick" else list(C05.FIELDS)
+    fields = ["k256fp", "k256fq", "blsfp"]
     for f in fields:
         m = C05.FIELDS[f]["m"]
         nbits = m.bit_length()
@@ -348,10 +374,26 @@ def ff_family(tier, seed):
         E.append(ent("to_le_bits", S_ff_to_bits(None, False), [r()], {"nb": None, "canon": False}, [[0], [m - 1]]))
         E.append(ent("to_le_bits", S_ff_to_bits(64, True), [rnd.randrange(1 << 64)], {"nb": 64, "canon": True}, [[0], [(1 << 64) - 1]]))
         E.append(ent("to_le_bytes", S_ff_to_bytes(None), [r()], {"nb": None}, [[0], [m - 1]]))
+        E[-1]["maypanic"] = nbits % 8 != 0      # 8 * ceil(bits / 8) exceeds the bits the limbs provide
         E.append(ent("to_le_bytes", S_ff_to_bytes(8), [rnd.randrange(1 << 64)], {"nb": 8}, [[0], [(1 << 64) - 1]]))
-        for n in ([8, nbits] if tier == "quick" else [1, 8, 64, 65, nbits - 1, nbits, nbits + 3]):
+        lbf = int(C05.FIELDS[f]["log2_base"] or 64)
+        # sgn0 (default trait method: bit 0 of the canonical bits) stated on the integers: needs the whole
+        # bit-serial canonicity chain as integer facts; finishes for 256-bit fields (measured 10-13 s), not
+        # for the 381-bit one within 60 s. Bit 0 of to_le_bits[canon] above is the same cell.
+        if nbits <= 256 or tier != "quick":
+            E.append(ent("sgn0", S_ff_sgn0, [r()], {}, [[0], [1], [m - 1], [m - 2]]))
+        for n in ([1, lbf // 8] if tier == "quick" else [1, 2, lbf // 8]):
+            E.append(ent("from_le_bytes", S_ff_from_bytes(n), [rnd.randrange(256) for _ in range(n)], {"n": n}, [[255] * n, [0] * n]))
+        # from_le_bits / from_le_bytes beyond one limb go through several constant multiplications and a
+        # normalisation: decided for two limbs of the 4-limb fields at the thorough tier, not for the 7-limb
+        # field (600 s timeout measured), see run.outside
+        widths = [1, 8, lbf]
+        if tier != "quick" and f in ("k256fp", "k256fq"):
+            widths += [lbf + 1, 2 * lbf]
+        for n in widths:
             bits = [rnd.randrange(2) for _ in range(n)]
             E.append(ent("from_le_bits", S_ff_from_bits(n), bits, {"n": n}, [[1] * n, [0] * n]))
+    E.sort(key=lambda en: 0 if en["op"] == "sgn0" else 1)
     return E
 
 
@@ -359,9 +401,68 @@ def check(run):
     t = core.tier()
     only = getattr(run, "only", None)
     ents = big_family(t, core.seed())
-    run.bounds.append(f"C05/B tier={t}: {len(ents)} BigUintGadget (operation, operand widths) shapes; limb size read from the run")
+    run.assumptions += [
+        "C05/B: a big integer is identified with the limbs the gadget's own constrain_as_public_input exposes (base 2^LOG2_BASE little endian, LOG2_BASE recovered from the real off-circuit encoder); every AssignedBigUint the public API returns is normalised, so no un-normalised operand can be handed to an operation from outside the crate",
+        "C05/B: limb products are exact integers because both factors are range-checked by the system itself (bounds inferred from its lookups); they are shared atoms between gates and specification",
+        "C05/B: mod_exp hints mention hidden quotient/remainder cells located heuristically; every hint is an instance of a lemma proved valid by the solvers first, premises kept in the formula (vf/cbig.py)",
+    ]
+    run.outside += [
+        "C05/B: BigUint operands above 4 limbs (384 bits); mod_exp exponents above 4, and exponents 3/4 beyond one-limb operands (two-limb n = 2 at the thorough tier only: 35-90 s)",
+        "C05/B: un-normalised AssignedBigUint operands (not constructible through the public API); constrain_as_public_input's internal normalisation branch is therefore only reached through add/mul",
+        "C05/B: from_le_bits / from_le_bytes of emulated elements beyond one limb for the 7-limb BLS12-381 base field (600 s timeout measured) and beyond two limbs for the 4-limb fields; sgn0 of the 381-bit field at the quick tier (562 s measured; thorough tier only); Curve25519 parameter sets; completeness beyond the concrete honest runs",
+    ]
+    run.translator_validation.append("C05/B: the honest assignment of every extracted BigUint circuit satisfies the encoded system and the specification (vacuity twin); scratch-worktree mutations (carry range check dropped in normalize, geq skipping the least significant limb, canonicity check of FieldChip::assigned_to_le_bits dropped) flip add/sub/mul, lower_than and to_le_bits/to_le_bytes to VIOLATION with replayed forged assignments (notes/biguint.md)")
+    run.bounds.append(f"C05/B tier={t}: {len(ents)} BigUintGadget (operation, operand widths) shapes, widths 8..384 bits = 1..4 limbs; limb size read from the run")
+    cengine.build(run)
+    ents = cbig.split_panicking(run, "biguint", ents)
     cengine.run_family(run, "biguint", ents, timeout=60 if t == "quick" else 600, only=only, workers=6)
+    offcircuit_encoder(run)
     check_ff(run)
+
+
+def offcircuit_encoder(run):
+    """Concrete companion (as in C08): `AssignedBigUint::as_public_input(v, nb_bits)` is the instance vector
+    of the honest run that assigns v with that bound and exposes it with the gadget's own
+    constrain_as_public_input."""
+    only = getattr(run, "only", None)
+    ob = core.Ob("biguint/offcircuit-encoder", "C", "AssignedBigUint::as_public_input(v, nb_bits) equals the instance vector of the honest run exposing v",
+                 functions=["AssignedBigUint::as_public_input (off-circuit)", "BigUintGadget::constrain_as_public_input"],
+                 bound="nb_bits in {1, 8, 96, 97, 192, 200, 384}; values 0, 1, 2^nb_bits - 1, seeded random", key="biguint/offcircuit-encoder")
+    run.add(ob)
+    if only and only not in ob.id:
+        ob.set(core.HOLDS, "skipped by --only")
+        ob.nontrivial = False
+        return
+    rnd = random.Random(5700 + core.seed())
+    bad, n = [], 0
+    try:
+        for nb in [1, 8, 96, 97, 192, 200, 384]:
+            for v in [0, 1, (1 << nb) - 1, rnd.randrange(1 << nb)]:
+                sy = cengine.extract("biguint", "assign", {"bx": nb}, [v], 11)
+                n += 1
+                inst = [x["value"] for x in sy.d["io"] if x["dir"] == "in"]
+                if sy.d["extra"]["offcircuit_pi"] != inst or not sy.d["honest_verify"]:
+                    bad.append((nb, hex(v)))
+        ob.queries = n
+        ob.nontrivial = False
+        if bad:
+            ob.set(core.VIOLATION, f"off-circuit encoding differs from the instance the circuit binds: {bad[:4]}",
+                   replay=run.write_replay(ob, dict(kind="biguint-offcircuit-encoder", cases=bad[:8], engine_part="B")))
+        else:
+            ob.set(core.HOLDS, f"{n} concrete values")
+    except Exception as ex:  # noqa
+        ob.set(core.INCONCLUSIVE, repr(ex))
+
+
+def replay(payload):
+    if payload.get("kind") != "biguint-offcircuit-encoder":
+        return None
+    bad = 0
+    for nb, v in payload["cases"]:
+        sy = cengine.extract("biguint", "assign", {"bx": nb}, [int(v, 16)], 11)
+        inst = [x["value"] for x in sy.d["io"] if x["dir"] == "in"]
+        bad += sy.d["extra"]["offcircuit_pi"] != inst
+    return 1 if bad else 0
 
 
 def check_ff(run):
@@ -369,4 +470,6 @@ def check_ff(run):
     only = getattr(run, "only", None)
     ents = ff_family(t, core.seed())
     run.bounds.append(f"C05/B tier={t}: {len(ents)} (emulated field, bit/byte conversion) shapes")
+    cengine.build(run)
+    ents = cbig.split_panicking(run, "foreign", ents)
     cengine.run_family(run, "foreign", ents, timeout=60 if t == "quick" else 600, only=only, workers=6)
